@@ -5,7 +5,7 @@
     [Grounded D g] (Spec/Spec.v) : g is a fixpoint of the three-valued consequence operator that is
     below every fixpoint. *)
 From Coq Require Import NArith List Bool.
-From ADF Require Import Spec.Spec Spec.Theory Bdd.Store Bdd.WF Bdd.Node Adf.Native Adf.NativeBase Adf.GroundedProofs Adf.NativeExamples.
+From ADF Require Import Spec.Spec Spec.Theory Bdd.Store Bdd.WF Bdd.Node Adf.Native Adf.NativeBase Adf.GroundedProofs Adf.NativeExamples Adf.Bio Adf.BioProofs Adf.BridgeProofs.
 Import ListNotations.
 Local Open Scope N_scope.
 
@@ -36,3 +36,31 @@ Theorem C01_parsed_adfs_are_well_formed : forall c n fs st ac,
   WF c st /\ ac_ok st ac /\ length ac = n /\ adf_eq (abs st ac) (sem_from_parser n fs).
 Proof. exact from_parser_ok. Qed.
 Print Assumptions C01_parsed_adfs_are_well_formed.
+
+(** biodivine back-end (its values are canonical Boolean functions, represented by handles of a verified store) *)
+Theorem C01_grounded_biodivine : forall c st ac st' g, WF c st -> ac_ok st ac -> bio_grounded c st ac = Some (st', g) ->
+  WF c st' /\ extends st st' /\ length g = length ac /\ Grounded (abs st ac) (interp_of g).
+Proof. exact bio_grounded_exact. Qed.
+Print Assumptions C01_grounded_biodivine.
+
+(** hybrid back-end without pre-grounding: the bridge imports diagrams denoting the dumped functions
+    (C09), and the grounded interpretation only depends on the denoted ADF *)
+Theorem C01_grounded_depends_on_adf_only : forall c1 c2 st1 ac1 st2 ac2 s1' g1 s2' g2,
+  WF c1 st1 -> WF c2 st2 -> ac_ok st1 ac1 -> ac_ok st2 ac2 -> adf_eq (abs st1 ac1) (abs st2 ac2) ->
+  grounded c1 st1 ac1 = Some (s1', g1) -> grounded c2 st2 ac2 = Some (s2', g2) -> interp_of g1 = interp_of g2.
+Proof. exact answers_determined_grounded. Qed.
+Print Assumptions C01_grounded_depends_on_adf_only.
+
+(** hybrid back-end with biodivine pre-grounding: the vector handed to the bridge denotes the ADF with
+    the grounded truth values substituted, and any store denoting THAT ADF reports the original's
+    grounded interpretation *)
+Theorem C01_pregrounding : forall c st ac s1 g, WF c st -> ac_ok st ac -> bio_grounded_internal c st ac = Some (s1, g) ->
+  WF c s1 /\ extends st s1 /\ ac_ok s1 g /\ Grounded (abs st ac) (interp_of g) /\
+  adf_eq (abs s1 g) (pregrounded (abs st ac) (interp_of g)).
+Proof. exact bio_grounded_internal_pregrounded. Qed.
+Print Assumptions C01_pregrounding.
+Theorem C01_grounded_hybrid_pregrounded : forall D g c st ts, Forall (supported (length D)) D -> Grounded D g -> WF c st ->
+  Forall (fun h => h < size st) ts -> adf_eq (abs st ts) (pregrounded D g) ->
+  forall st' g', grounded c st ts = Some (st', g') -> interp_of g' = g.
+Proof. exact hybrid_opt_grounded. Qed.
+Print Assumptions C01_grounded_hybrid_pregrounded.
